@@ -4,6 +4,7 @@ import (
 	"fmt"
 	"go/token"
 	"go/types"
+	"os"
 	"sort"
 	"strings"
 
@@ -125,21 +126,50 @@ func c10Kinds(c *Ctx, r *Report, a *Anchors) {
 		}
 	}
 	enter := map[string]bool{}
+	tAlias := wrapperAliases(a.dispatch, tP)
+	isT := func(v ssa.Value) bool { return tAlias[stripIface(v)] }
 	for _, ci := range callsIn(a.dispatch) {
 		if ci.Common().StaticCallee() != a.fieldSels {
 			continue
 		}
-		for _, t := range caseTypes(ci.Block(), tP) {
-			enter[typeStr(t)] = true
-		}
-		// union arm: members are objects
+		// the container type may be picked in the arms and handed on in one place: each value where it was picked
 		for _, arg := range ci.Common().Args {
-			if c.isNamed(arg.Type(), "Type") && stripIface(arg) != tP {
-				enter["*Object"] = true
+			if !c.isNamed(arg.Type(), "Type") {
+				continue
+			}
+			leaves := phiLeavesUntil(stripIface(arg), isT)
+			for _, lf := range leaves {
+				if isNilConst(lf.val) {
+					continue
+				}
+				at := ci.Block()
+				if lf.pred != nil {
+					at = lf.pred
+				}
+				if os.Getenv("C10_DEBUG") != "" {
+					fmt.Fprintln(os.Stderr, "leaf", lf.val, "at", at.Index, "isT", isT(lf.val), "kinds", caseTypesOf(at, isT), "aliases", len(tAlias))
+				}
+				for _, t := range caseTypesOf(at, isT) {
+					enter[typeStr(t)] = true
+				}
+				if lf.pred != nil && len(lf.pred.Instrs) > 0 {
+					if ifi, ok := lf.pred.Instrs[len(lf.pred.Instrs)-1].(*ssa.If); ok && lf.pred.Succs[0] == lf.phi.Block() {
+						if f, ok := assertFactOf(guard{ifi.Cond, true, ifi}); ok && f.holds && isT(f.x) {
+							enter[typeStr(f.t)] = true
+						}
+					}
+				}
+				// union arm: members are objects
+				if !isT(lf.val) {
+					enter["*Object"] = true
+				}
 			}
 		}
 	}
 	delete(enter, "*Union")
+	if os.Getenv("C10_DEBUG") != "" {
+		fmt.Fprintln(os.Stderr, "C10.KINDS enter:", enter)
+	}
 	var gP *ssa.Parameter
 	for _, p := range a.getFD.Params {
 		if c.isNamed(p.Type(), "Type") {
